@@ -95,6 +95,13 @@ impl Stream for C19 {
             let mut cap = kw.to_string();
             cap[..1].make_ascii_uppercase();
             both(&mut cases, "color", &cap, &["kw-cap"]);
+            // every spelling with exactly ONE capital letter (camelCase spellings of other colour vocabularies, e.g.
+            // Qt::GlobalColor's darkGray, are among them: they denote the SVG keyword, case-insensitively)
+            for i in 1..kw.len() {
+                let mut one = kw.to_string();
+                one[i..i + 1].make_ascii_uppercase();
+                both(&mut cases, "color", &one, &["kw-one-capital"]);
+            }
             for _ in 0..reps {
                 both(&mut cases, "color", &random_case(&mut rng, kw), &["kw-random-case"]);
                 // near miss
